@@ -81,6 +81,11 @@ def session(sess, suite, n, t, kind, nsign):
         rb = rng.randbytes(64)
         c = sess.call("commit %s share=%s tape=%s" % (suite, kp_fields(kps[i])["share"], rb.hex()), EXACT, "commit")
         nonces[i] = c["nonces"]
+        # nonce_generate (RFC 9591 4.1) through the public entry point: hiding from the first 32 random bytes, binding from the next 32
+        sh = bytes.fromhex(kp_fields(kps[i])["share"])
+        nf = nonces_fields(c["nonces"])
+        sess.oracle(fld.dec(nf["hid"]) == refhash.hash_to_scalar(suite, "nonce", rb[:32] + sh) and fld.dec(nf["bnd"]) == refhash.hash_to_scalar(suite, "nonce", rb[32:] + sh),
+                    "commit: nonces are not (H3(first 32 random bytes || share), H3(next 32 random bytes || share)) (hashlib)", [sess.records[-1][0]])
     comms = comms_str(nonces)
     order = sorted(signers, key=lambda h: fld.dec(h))
     e = sess.call("enc_comms %s comms=%s" % (suite, comms), EXACT, "enc_comms")
